@@ -12,7 +12,7 @@ CONSTANTS
  MaxByz = 0
  Faults <- FApi
  MaxFault = 1
- Tampers <- TAll
+ Tampers <- TSig
  MaxTamper = 1
  Plants <- PNone
  MaxPlant = 0
